@@ -52,6 +52,7 @@ func checkC10(p *Program, r *Report) {
 	c10Unchanged(p, r, m, sums)
 	c10Missing(p, r, m)
 	c10WriteBack(p, r, m, sums)
+	c10Make(p, r, m, sums)
 }
 
 func c10Sinks(p *Program, r *Report, m *vmModel, sums *typeSummaries) {
@@ -889,4 +890,47 @@ func c10WriteBack(p *Program, r *Report, m *vmModel, sums *typeSummaries) {
 		}
 	}
 	r.Floor("C10.R6", n, 4)
+}
+
+// c10Make (R7): make(slice/chan) builds the container from the node's own length and capacity operands.
+func c10Make(p *Program, r *Report, m *vmModel, sums *typeSummaries) {
+	h := m.handlers["expr"]["MakeExpr"]
+	if h == nil {
+		r.Undecided("C10.R7", "MakeExpr", "vm", "handler not found")
+		return
+	}
+	va := buildEvalAnalysis(m)
+	a := newAddrAnalysis(m, va, sums)
+	n := 0
+	for _, b := range h.Blocks {
+		for _, in := range b.Instrs {
+			c, ok := in.(*ssa.Call)
+			if !ok {
+				continue
+			}
+			o := calleeObj(c)
+			if o == nil || o.Pkg() == nil || o.Pkg().Path() != "reflect" {
+				continue
+			}
+			switch o.Name() {
+			case "MakeSlice":
+				n++
+				l, cp := a.symInt(h, c.Call.Args[1], 0), a.symInt(h, c.Call.Args[2], 0)
+				bad := ""
+				if !strings.Contains(l, "int(LenExpr)") {
+					bad = "the length is " + l + ", not the node's length operand"
+				} else if !strings.Contains(cp, "int(CapExpr)") {
+					bad = "the capacity is " + cp + ": the capacity operand is evaluated and validated but not applied (appends that should fit reallocate, and slices that should share storage do not)"
+				} else if !strings.Contains(cp, "int(LenExpr)") {
+					bad = "without a capacity operand the capacity is " + cp + ", not the length"
+				}
+				r.Check(bad == "", "C10.R7", h.Name()+"|MakeSlice", p.Pos(c.Pos()), "MakeSlice(type, "+l+", "+cp+")", bad)
+			case "MakeChan":
+				n++
+				l := a.symInt(h, c.Call.Args[1], 0)
+				r.Check(strings.Contains(l, "int(LenExpr)"), "C10.R7", h.Name()+"|MakeChan", p.Pos(c.Pos()), "MakeChan(type, "+l+")", "the buffer size is "+l+", not the node's length operand")
+			}
+		}
+	}
+	r.Floor("C10.R7", n, 2)
 }
